@@ -49,9 +49,13 @@ pub(crate) fn encode_bytes<B: AsRef<[u8]> + ?Sized, W: Write>(
 ) -> AvroResult<usize> {
     let bytes = s.as_ref();
     encode_long(bytes.len() as i64, &mut writer)?;
-    writer
-        .write(bytes)
-        .map_err(|e| Details::WriteBytes(e).into())
+    {
+        let bytes: &[u8] = bytes;
+        writer
+            .write_all(bytes)
+            .map(|()| bytes.len())
+            .map_err(|e| Details::WriteBytes(e).into())
+    }
 }
 
 pub(crate) fn encode_long<W: Write>(i: i64, writer: W) -> AvroResult<usize> {
@@ -94,9 +98,13 @@ pub(crate) fn encode_internal<W: Write, S: Borrow<Schema>>(
                 Ok(0)
             }
         }
-        Value::Boolean(b) => writer
-            .write(&[u8::from(*b)])
-            .map_err(|e| Details::WriteBytes(e).into()),
+        Value::Boolean(b) => {
+            let bytes: &[u8] = &[u8::from(*b)];
+            writer
+                .write_all(bytes)
+                .map(|()| bytes.len())
+                .map_err(|e| Details::WriteBytes(e).into())
+        }
         // Pattern | Pattern here to signify that these _must_ have the same encoding.
         Value::Int(i) | Value::Date(i) | Value::TimeMillis(i) => encode_int(*i, writer),
         Value::Long(i)
@@ -107,12 +115,20 @@ pub(crate) fn encode_internal<W: Write, S: Borrow<Schema>>(
         | Value::LocalTimestampMicros(i)
         | Value::LocalTimestampNanos(i)
         | Value::TimeMicros(i) => encode_long(*i, writer),
-        Value::Float(x) => writer
-            .write(&x.to_le_bytes())
-            .map_err(|e| Details::WriteBytes(e).into()),
-        Value::Double(x) => writer
-            .write(&x.to_le_bytes())
-            .map_err(|e| Details::WriteBytes(e).into()),
+        Value::Float(x) => {
+            let bytes: &[u8] = &x.to_le_bytes();
+            writer
+                .write_all(bytes)
+                .map(|()| bytes.len())
+                .map_err(|e| Details::WriteBytes(e).into())
+        }
+        Value::Double(x) => {
+            let bytes: &[u8] = &x.to_le_bytes();
+            writer
+                .write_all(bytes)
+                .map(|()| bytes.len())
+                .map_err(|e| Details::WriteBytes(e).into())
+        }
         Value::Decimal(decimal) => match schema {
             Schema::Decimal(DecimalSchema { inner, .. }) => match inner {
                 InnerDecimalSchema::Fixed(fixed) => {
@@ -141,9 +157,13 @@ pub(crate) fn encode_internal<W: Write, S: Borrow<Schema>>(
         },
         &Value::Duration(duration) => {
             let slice: [u8; 12] = duration.into();
-            writer
-                .write(&slice)
-                .map_err(|e| Details::WriteBytes(e).into())
+            {
+                let bytes: &[u8] = &slice;
+                writer
+                    .write_all(bytes)
+                    .map(|()| bytes.len())
+                    .map_err(|e| Details::WriteBytes(e).into())
+            }
         }
         Value::Uuid(uuid) => match *schema {
             Schema::Uuid(UuidSchema::String) | Schema::String => encode_bytes(
@@ -163,9 +183,13 @@ pub(crate) fn encode_internal<W: Write, S: Borrow<Schema>>(
                 }
 
                 let bytes = uuid.as_bytes();
-                writer
-                    .write(bytes.as_slice())
-                    .map_err(|e| Details::WriteBytes(e).into())
+                {
+                    let bytes: &[u8] = bytes.as_slice();
+                    writer
+                        .write_all(bytes)
+                        .map(|()| bytes.len())
+                        .map_err(|e| Details::WriteBytes(e).into())
+                }
             }
             _ => Err(Details::EncodeValueAsSchemaError {
                 value_kind: ValueKind::Uuid,
@@ -180,15 +204,23 @@ pub(crate) fn encode_internal<W: Write, S: Borrow<Schema>>(
         },
         Value::BigDecimal(bg) => {
             let buf: Vec<u8> = serialize_big_decimal(bg)?;
-            writer
-                .write(buf.as_slice())
-                .map_err(|e| Details::WriteBytes(e).into())
+            {
+                let bytes: &[u8] = buf.as_slice();
+                writer
+                    .write_all(bytes)
+                    .map(|()| bytes.len())
+                    .map_err(|e| Details::WriteBytes(e).into())
+            }
         }
         Value::Bytes(bytes) => match *schema {
             Schema::Bytes | Schema::Uuid(UuidSchema::Bytes) => encode_bytes(bytes, writer),
-            Schema::Fixed { .. } => writer
-                .write(bytes.as_slice())
-                .map_err(|e| Details::WriteBytes(e).into()),
+            Schema::Fixed { .. } => {
+                let bytes: &[u8] = bytes.as_slice();
+                writer
+                    .write_all(bytes)
+                    .map(|()| bytes.len())
+                    .map_err(|e| Details::WriteBytes(e).into())
+            }
             _ => Err(Details::EncodeValueAsSchemaError {
                 value_kind: ValueKind::Bytes,
                 supported_schema: vec![SchemaKind::Bytes, SchemaKind::Fixed, SchemaKind::Uuid],
@@ -211,9 +243,13 @@ pub(crate) fn encode_internal<W: Write, S: Borrow<Schema>>(
             }
             .into()),
         },
-        Value::Fixed(_, bytes) => writer
-            .write(bytes.as_slice())
-            .map_err(|e| Details::WriteBytes(e).into()),
+        Value::Fixed(_, bytes) => {
+            let bytes: &[u8] = bytes.as_slice();
+            writer
+                .write_all(bytes)
+                .map(|()| bytes.len())
+                .map_err(|e| Details::WriteBytes(e).into())
+        }
         Value::Enum(i, _) => encode_int(*i as i32, writer),
         Value::Union(idx, item) => {
             if let Schema::Union(ref inner) = *schema {
@@ -246,9 +282,13 @@ pub(crate) fn encode_internal<W: Write, S: Borrow<Schema>>(
                         )?;
                     }
                 }
-                writer
-                    .write(&[0u8])
-                    .map_err(|e| Details::WriteBytes(e).into())
+                {
+                    let bytes: &[u8] = &[0u8];
+                    writer
+                        .write_all(bytes)
+                        .map(|()| bytes.len())
+                        .map_err(|e| Details::WriteBytes(e).into())
+                }
             } else {
                 error!("invalid schema type for Array: {schema:?}");
                 Err(Details::EncodeValueAsSchemaError {
@@ -273,9 +313,13 @@ pub(crate) fn encode_internal<W: Write, S: Borrow<Schema>>(
                         )?;
                     }
                 }
-                writer
-                    .write(&[0u8])
-                    .map_err(|e| Details::WriteBytes(e).into())
+                {
+                    let bytes: &[u8] = &[0u8];
+                    writer
+                        .write_all(bytes)
+                        .map(|()| bytes.len())
+                        .map_err(|e| Details::WriteBytes(e).into())
+                }
             } else {
                 error!("invalid schema type for Map: {schema:?}");
                 Err(Details::EncodeValueAsSchemaError {
@@ -339,9 +383,13 @@ pub(crate) fn encode_internal<W: Write, S: Borrow<Schema>>(
                     );
                     match encode_res {
                         Ok(_) => {
-                            return writer
-                                .write(union_buffer.as_slice())
-                                .map_err(|e| Details::WriteBytes(e).into());
+                            return {
+                                let bytes: &[u8] = union_buffer.as_slice();
+                                writer
+                                    .write_all(bytes)
+                                    .map(|()| bytes.len())
+                                    .map_err(|e| Details::WriteBytes(e).into())
+                            };
                         }
                         Err(_) => {
                             union_buffer.clear(); //undo any partial encoding
